@@ -17,5 +17,6 @@ INVARIANT KeysMatchRules
 INVARIANT MemMatchesDb
 INVARIANT LastBlockRight
 INVARIANT OwnStable
+INVARIANT ExitOnlyByOwner
 INVARIANT TypeOK
 VIEW view
